@@ -187,6 +187,8 @@ def build_direct(s):
         c_ = np.concatenate([Ac.col, Ac.col, np.zeros(1, dtype=Ac.col.dtype)])
         d_ = np.concatenate([Ac.data * 0.25, Ac.data * 0.75, np.zeros(1)])
         A = sp.coo_matrix((d_, (r_, c_)), shape=Ac.shape)
+    if b is not None and s.get("b_form") == "series_perm" and len(b) > 1:
+        b = pd.Series(b, index=list(range(len(b) - 1, -1, -1)))      # same values in the same order, labels reversed
     c = np.array(s["c"], float)
     lo_, up_ = np.array(s["l"], float), np.array(s["u"], float)
     for k_, side in (s.get("inf") or {}).items():
@@ -329,6 +331,15 @@ def gen_plan(rng, run_index, tier, opts):
     if rng.random() < 0.3:
         # the switch spelled as another true / false value: numpy bool from a comparison, 0 / 1
         plan["soft_spelling"] = rng.choice(["np", "int"])
+    # (round 13, drawn last)
+    if rng.random() < 0.12:
+        plan["positional"] = True        # optimize(target, samples, interface, solver, make_soft_problem) by position
+    if plan.get("pre_calls") and rng.random() < 0.35:
+        # an earlier, deliberately rough call: solver options given for THAT call only (tolerances of 0.1)
+        plan["pre_calls"][0]["solver_params"] = True
+    if srcs_ and rng.random() < 0.08:
+        for src_ in srcs_:
+            src_["b_form"] = "series_perm"   # right-hand side handed over as a pandas Series whose labels are not 0..m-1 in order
     return plan
 
 
@@ -873,6 +884,15 @@ class Conversation:
         kw = {}
         if call.get("solver"):
             kw["solver"] = call["solver"]
+        self.caller_options = False
+        if call.get("solver_params"):
+            eff_ = (call.get("solver") or "").upper()
+            loose = {"OSQP": {"eps_abs": 1e-1, "eps_rel": 1e-1}, "SCS": {"eps_abs": 1e-1, "eps_rel": 1e-1},
+                     "CLARABEL": {"tol_gap_abs": 1e-1, "tol_gap_rel": 1e-1, "tol_feas": 1e-1}}.get(eff_)
+            if loose:
+                kw["solver_params"] = dict(loose)     # (cvxpy interface: ignored by the pinned code, which documents it for ortools)
+                self.caller_options = True
+                self.probes["caller_solver_options"] = self.probes.get("caller_solver_options", 0) + 1
         sp_ = plan.get("soft_spelling")
         if self.soft:
             kw["make_soft_problem"] = {"np": np.bool_(True), "int": 1}.get(sp_, True)
@@ -917,10 +937,31 @@ class Conversation:
                 self.ref_x[0] = rx
         with seams.SimSolver(faults, on_request=self.on_request) as ss:
             try:
-                res = op.optimize(**kw)
+                if plan.get("positional") and set(kw) <= {"target", "samples", "solver", "make_soft_problem"}:
+                    res = op.optimize(kw.get("target", "value"), kw.get("samples"), "cvxpy", kw.get("solver"), kw.get("make_soft_problem", False))
+                    self.probes["positional_call"] = self.probes.get("positional_call", 0) + 1
+                else:
+                    res = op.optimize(**kw)
                 exc = None
             except Exception as e:
                 res, exc = None, e
+        # results handed out by earlier calls of this conversation stay what they were
+        for (r_old, x_old, v_old, c_old) in getattr(self, "kept_results", []):
+            try:
+                same_ = (np.asarray(r_old.x, float).shape == x_old.shape and np.array_equal(np.asarray(r_old.x, float), x_old, equal_nan=True)
+                         and float(r_old.value) == v_old)
+            except Exception:
+                same_ = False
+            if not same_ and self.violation is None:
+                self.viol("earlier-result-changed", "the Results returned by call %d of this conversation changed while call %d ran (x or value differ from "
+                          "what was returned)" % (c_old, ci), "results-object")
+        if exc is None and res is not None and not isinstance(res, str) and getattr(res, "x", None) is not None:
+            if not hasattr(self, "kept_results"):
+                self.kept_results = []
+            try:
+                self.kept_results.append((res, np.array(res.x, dtype=float).copy(), float(res.value), ci))
+            except Exception:
+                pass
         self.stats["solve_calls"] += len(ss.log)
         pend = getattr(self, "pending_request_violation", None)
         if pend is not None:
@@ -936,7 +977,11 @@ class Conversation:
             self.fault(k_.split(":")[0] if not k_.startswith("status:") else k_)
         outcome = "raise" if exc is not None else ("fail" if isinstance(res, str) else "results")
         tagp = "call%d" % ci
-        if self.violation is None:
+        if self.violation is None and self.caller_options and any(r_.get("eao_options") for r_ in ss.log):
+            # the caller asked for a rough solve and the options reached the peer: the quality of THIS answer is the caller's business
+            self.events.append((tagp, "caller-limited"))
+            self.stats["no_claim"] += 1
+        elif self.violation is None:
             if exc is not None:
                 self.events.append((tagp, "raise:%s" % type(exc).__name__))
                 self.stats["no_claim"] += 1
